@@ -12,17 +12,19 @@ import (
 	"time"
 
 	"github.com/libp2p/go-libp2p/config"
+	"github.com/libp2p/go-libp2p/core/connmgr"
 	"github.com/libp2p/go-libp2p/core/network"
 	"github.com/libp2p/go-libp2p/core/peerstore"
-	"github.com/libp2p/go-libp2p/core/transport"
 	"github.com/libp2p/go-libp2p/p2p/host/eventbus"
 	"github.com/libp2p/go-libp2p/p2p/host/peerstore/pstoremem"
 	"github.com/libp2p/go-libp2p/p2p/net/conngater"
 	"github.com/libp2p/go-libp2p/p2p/net/swarm"
 	libp2pquic "github.com/libp2p/go-libp2p/p2p/transport/quic"
 	"github.com/libp2p/go-libp2p/p2p/transport/quicreuse"
+	libp2pwebtransport "github.com/libp2p/go-libp2p/p2p/transport/webtransport"
 	"github.com/marcopolo/simnet"
 	ma "github.com/multiformats/go-multiaddr"
+	"github.com/quic-go/quic-go"
 	"pgregory.net/rapid"
 
 	"verif/internal/hx"
@@ -31,9 +33,11 @@ import (
 )
 
 // The QUIC transport has its own gating call sites (listener.Accept: InterceptAccept &&
-// InterceptSecured after the handshake; the swarm gates the outbound side). They are
-// driven here with the real transport over the repo's in-memory UDP substrate (simnet,
-// as used by x/simlibp2p) with arbitrary source IPs.
+// InterceptSecured after the handshake; the swarm gates the outbound side), and so has the
+// WebTransport transport (listener: InterceptAccept in the HTTP handler, InterceptSecured
+// after Noise; dialer: InterceptSecured). They are driven here with the real transports
+// over the repo's in-memory UDP substrate (simnet, as used by x/simlibp2p) with arbitrary
+// source IPs, for both ways a quicreuse.ConnManager is configured (udpCfg.scoped).
 
 type srcSel struct{ ip atomic.Pointer[net.IP] }
 
@@ -42,11 +46,12 @@ func (m *srcSel) PreferredSourceIPForDestination(*net.UDPAddr) (net.IP, error) {
 }
 
 type quicNode struct {
-	sw   *swarm.Swarm
-	ps   peerstore.Peerstore
-	cm   *quicreuse.ConnManager
-	nf   *notifiee
-	addr ma.Multiaddr
+	sw     *swarm.Swarm
+	ps     peerstore.Peerstore
+	cm     *quicreuse.ConnManager
+	nf     *notifiee
+	addr   ma.Multiaddr
+	scopes *atomic.Int64 // scopes opened by the ConnContext option (nil: bare ConnManager)
 }
 
 func (n *quicNode) close() {
@@ -60,7 +65,39 @@ var quicLink = simnet.NodeBiDiLinkSettings{
 	Uplink:   simnet.LinkSettings{BitsPerSecond: 100_000_000},
 }
 
-func newQUICNode(sim *simnet.Simnet, id *keys.Identity, listen ma.Multiaddr, g *conngater.BasicConnectionGater) (*quicNode, error) {
+// udpCfg: which transports sit on the node's one quicreuse.ConnManager and how that
+// ConnManager is configured.
+type udpCfg struct {
+	quic, wt bool
+	// scoped: the ConnManager is created the way libp2p.New creates it (config/config.go):
+	// with a quicreuse.ConnContext option that opens the resource manager's connection scope
+	// when the QUIC connection is accepted and hands it on in the connection's context. The
+	// listeners then find the scope there instead of opening it at their own gating call site.
+	// Not scoped: a bare quicreuse.NewConnManager (what the swarm test helpers build).
+	scoped bool
+}
+
+// scopeAtAccept is the ConnContext option of libp2p.New's default ConnManager.
+func scopeAtAccept(rcmgr network.ResourceManager, opened *atomic.Int64) quicreuse.Option {
+	return quicreuse.ConnContext(func(ctx context.Context, ci *quic.ClientInfo) (context.Context, error) {
+		addr, err := quicreuse.ToQuicMultiaddr(ci.RemoteAddr, quic.Version1)
+		if err != nil {
+			addr = nil
+		}
+		scope, err := rcmgr.OpenConnection(network.DirInbound, false, addr)
+		if err != nil {
+			return ctx, err
+		}
+		opened.Add(1)
+		ctx = network.WithConnManagementScope(ctx, scope)
+		context.AfterFunc(ctx, func() { scope.Done() })
+		return ctx, nil
+	})
+}
+
+// newUDPNode builds a swarm with the real QUIC and/or WebTransport transports on one
+// ConnManager whose UDP sockets are simnet endpoints.
+func newUDPNode(sim *simnet.Simnet, id *keys.Identity, listen []ma.Multiaddr, g *conngater.BasicConnectionGater, cfg udpCfg) (*quicNode, error) {
 	ps, err := pstoremem.NewPeerstore()
 	if err != nil {
 		return nil, err
@@ -83,31 +120,51 @@ func newQUICNode(sim *simnet.Simnet, id *keys.Identity, listen ma.Multiaddr, g *
 		return nil, err
 	}
 	sel := &srcSel{}
-	cm, err := quicreuse.NewConnManager(srk, tgk,
+	rcmgr := &network.NullResourceManager{}
+	cmOpts := []quicreuse.Option{
 		quicreuse.OverrideSourceIPSelector(func() (quicreuse.SourceIPSelector, error) { return sel, nil }),
 		quicreuse.OverrideListenUDP(func(_ string, a *net.UDPAddr) (net.PacketConn, error) {
 			sel.ip.Store(&a.IP)
 			return sim.NewEndpoint(a, quicLink), nil
-		}))
+		})}
+	n := &quicNode{sw: sw, ps: ps, nf: &notifiee{}, addr: listen[0]}
+	if cfg.scoped {
+		n.scopes = new(atomic.Int64)
+		cmOpts = append(cmOpts, scopeAtAccept(rcmgr, n.scopes))
+	}
+	cm, err := quicreuse.NewConnManager(srk, tgk, cmOpts...)
 	if err != nil {
 		return nil, err
 	}
-	var tr transport.Transport
+	n.cm = cm
+	// (a nil *BasicConnectionGater must not end up in a non-nil interface)
+	var gi connmgr.ConnectionGater
 	if g != nil {
-		tr, err = libp2pquic.NewTransport(id.Priv, cm, nil, g, &network.NullResourceManager{})
-	} else {
-		tr, err = libp2pquic.NewTransport(id.Priv, cm, nil, nil, &network.NullResourceManager{})
+		gi = g
 	}
-	if err != nil {
-		return nil, err
+	if cfg.quic {
+		tr, err := libp2pquic.NewTransport(id.Priv, cm, nil, gi, rcmgr)
+		if err != nil {
+			return nil, err
+		}
+		if err := sw.AddTransport(tr); err != nil {
+			return nil, err
+		}
 	}
-	if err := sw.AddTransport(tr); err != nil {
-		return nil, err
+	if cfg.wt {
+		tr, err := libp2pwebtransport.New(id.Priv, nil, cm, gi, rcmgr)
+		if err != nil {
+			return nil, err
+		}
+		if err := sw.AddTransport(tr); err != nil {
+			return nil, err
+		}
 	}
-	if err := sw.Listen(listen); err != nil {
-		return nil, err
+	for _, a := range listen { // (one by one: Listen reports an error only when every address failed)
+		if err := sw.Listen(a); err != nil {
+			return nil, err
+		}
 	}
-	n := &quicNode{sw: sw, ps: ps, cm: cm, nf: &notifiee{}, addr: listen}
 	sw.Notify(n.nf.bundle())
 	return n, nil
 }
@@ -116,15 +173,48 @@ type quicAttempt struct {
 	ops      []op
 	peer, ip int
 	outbound bool // the gated node dials the remote
+	wt       bool // over WebTransport (otherwise plain QUIC)
 }
 
-func TestQUICSimnet(t *testing.T) {
+func (a quicAttempt) tpt() string {
+	if a.wt {
+		return "webtransport"
+	}
+	return "quic"
+}
+
+func TestQUICSimnet(t *testing.T) { udpSimnet(t, 320, 30000, false) }
+
+// TestWebTransportSimnet drives the WebTransport transport's own gating call sites
+// (listener: InterceptAccept in the HTTP handler before the session is upgraded,
+// InterceptSecured after Noise; dialer: InterceptSecured) with the real transport over
+// simnet, alone or next to QUIC on the same ConnManager and UDP port (libp2p.New's default
+// listen set), under both ConnManager configurations (see udpCfg.scoped).
+func TestWebTransportSimnet(t *testing.T) { udpSimnet(t, 240, 20000, true) }
+
+// wtAddr picks the node's WebTransport listen address (it carries the certhashes a dialer needs).
+func wtAddr(sw *swarm.Swarm, wt bool) ma.Multiaddr {
+	for _, a := range sw.ListenAddresses() {
+		if _, err := a.ValueForProtocol(ma.P_WEBTRANSPORT); (err == nil) == wt {
+			return a
+		}
+	}
+	return nil
+}
+
+func udpSimnet(t *testing.T, quick, thorough int, withWT bool) {
 	name := t.Name()
-	hx.Check(t, 320, 30000, 0, func(rt *rapid.T) {
+	hx.Check(t, quick, thorough, 0, func(rt *rapid.T) {
 		ex0 := relaxedUsed + excludedMasks
 		w := drawWorld(rt)
 		// one address family per case (the simulated node has one UDP socket)
 		v6 := rapid.Bool().Draw(rt, "v6")
+		// configuration: the transports on the ConnManager and how the ConnManager is built
+		cfg := udpCfg{quic: true, scoped: rapid.Bool().Draw(rt, "scopedConnManager")}
+		if withWT {
+			cfg.wt = true
+			cfg.quic = rapid.Bool().Draw(rt, "quicOnSamePort")
+		}
 		var cand []int
 		for i, a := range w.ips {
 			if a.v6 == v6 && ordinary(a) {
@@ -153,10 +243,24 @@ func TestQUICSimnet(t *testing.T) {
 		reopen := rapid.Bool().Draw(rt, "reopen")
 		var attempts []quicAttempt
 		for i, n := 0, rapid.IntRange(1, 3).Draw(rt, "nattempts"); i < n; i++ {
-			a := quicAttempt{peer: rapid.IntRange(0, nPeers-1).Draw(rt, "peer"), ip: rapid.SampledFrom(cand).Draw(rt, "ip"), outbound: rapid.IntRange(0, 2).Draw(rt, "outbound") == 0}
+			a := quicAttempt{peer: rapid.IntRange(0, nPeers-1).Draw(rt, "peer"), outbound: rapid.IntRange(0, 2).Draw(rt, "outbound") == 0}
 			if i > 0 {
 				a.ops = drawOps(rapid.IntRange(0, 2).Draw(rt, "nops"))
 			}
+			// the remote's IP: any candidate, or (so that refusals are not starved) one that the rules
+			// drawn so far cover
+			var covered []int
+			for _, c := range cand {
+				if m0.ipVerdict(w.ips[c]) == yes {
+					covered = append(covered, c)
+				}
+			}
+			if len(covered) > 0 && rapid.Bool().Draw(rt, "coveredIP") {
+				a.ip = rapid.SampledFrom(covered).Draw(rt, "ip")
+			} else {
+				a.ip = rapid.SampledFrom(cand).Draw(rt, "ip")
+			}
+			a.wt = cfg.wt && (!cfg.quic || rapid.IntRange(0, 3).Draw(rt, "overWebTransport") > 0)
 			attempts = append(attempts, a)
 		}
 		var (
@@ -164,6 +268,10 @@ func TestQUICSimnet(t *testing.T) {
 			labels     = map[string]bool{}
 			nontrivial bool
 		)
+		cmName := "bare-connmanager"
+		if cfg.scoped {
+			cmName = "scope-at-accept-connmanager"
+		}
 		hx.Bubble(t, rt, func() {
 			st := newStore()
 			g, err := conngater.NewBasicConnectionGater(st)
@@ -185,11 +293,21 @@ func TestQUICSimnet(t *testing.T) {
 				}
 			}
 			sim := &simnet.Simnet{LatencyFunc: simnet.StaticLatency(5 * time.Millisecond)}
-			srvAddr := mustAddr("/ip4/198.51.100.1/udp/8000/quic-v1")
+			host := "/ip4/198.51.100.1"
 			if v6 {
-				srvAddr = mustAddr("/ip6/2001:db8:ffff::1/udp/8000/quic-v1")
+				host = "/ip6/2001:db8:ffff::1"
 			}
-			srv, err := newQUICNode(sim, keys.Ed(0), srvAddr, g)
+			listenSet := func(host string, port int) []ma.Multiaddr {
+				var l []ma.Multiaddr
+				if cfg.quic {
+					l = append(l, mustAddr(fmt.Sprintf("%s/udp/%d/quic-v1", host, port)))
+				}
+				if cfg.wt {
+					l = append(l, mustAddr(fmt.Sprintf("%s/udp/%d/quic-v1/webtransport", host, port)))
+				}
+				return l
+			}
+			srv, err := newUDPNode(sim, keys.Ed(0), listenSet(host, 8000), g, cfg)
 			if err != nil {
 				rt.Fatalf("server node: %v", err)
 			}
@@ -207,20 +325,28 @@ func TestQUICSimnet(t *testing.T) {
 				if v6 {
 					fam = "ip6"
 				}
-				caddr := mustAddr(fmt.Sprintf("/%s/%s/udp/%d/quic-v1", fam, ip, 9000+ai))
-				cli, err := newQUICNode(sim, rid, caddr, nil)
+				// the remote: an ungated node with the same transports and a bare ConnManager
+				cli, err := newUDPNode(sim, rid, listenSet(fmt.Sprintf("/%s/%s", fam, ip), 9000+ai), nil, udpCfg{quic: cfg.quic, wt: cfg.wt})
 				if err != nil {
 					rt.Fatalf("client node: %v", err)
 				}
+				caddr, saddr := wtAddr(cli.sw, at.wt), wtAddr(srv.sw, at.wt)
+				if caddr == nil || saddr == nil {
+					rt.Fatalf("harness: no %s listen address (remote %v, gated node %v)", at.tpt(), cli.sw.ListenAddresses(), srv.sw.ListenAddresses())
+				}
 				pv, iv := m.peerVerdict(at.peer), m.ipVerdict(ip)
-				what := fmt.Sprintf("attempt %d (outbound=%v): QUIC remote peer%d at %s; rules after:\n  %s\n", ai, at.outbound, at.peer, caddr, strings.Join(hist, "\n  "))
+				what := fmt.Sprintf("attempt %d (outbound=%v, %s): %s remote peer%d at %s; rules after:\n  %s\n", ai, at.outbound, cmName, at.tpt(), at.peer, caddr, strings.Join(hist, "\n  "))
+				var opened0 int64
+				if srv.scopes != nil {
+					opened0 = srv.scopes.Load()
+				}
 				ctx, cancel := context.WithTimeout(context.Background(), 10*time.Second)
 				var derr error
 				if at.outbound {
 					srv.ps.AddAddr(rid.ID, caddr, time.Hour)
 					_, derr = srv.sw.DialPeer(ctx, rid.ID)
 				} else {
-					cli.ps.AddAddr(srv.sw.LocalPeer(), srvAddr, time.Hour)
+					cli.ps.AddAddr(srv.sw.LocalPeer(), saddr, time.Hour)
 					_, derr = cli.sw.DialPeer(ctx, srv.sw.LocalPeer())
 				}
 				cancel()
@@ -230,9 +356,14 @@ func TestQUICSimnet(t *testing.T) {
 				evs := srv.nf.take()
 				cevs := cli.nf.take()
 				all := or(pv, iv)
+				class := "unspecified"
 				switch all {
 				case yes:
 					labels["blocked"] = true
+					class = "peer-blocked"
+					if iv == yes {
+						class = "addr-blocked"
+					}
 					if iv == yes && m.viaSubnet(ip) {
 						nontrivial = true
 						labels["blocked-through-subnet-edge"] = true
@@ -247,17 +378,29 @@ func TestQUICSimnet(t *testing.T) {
 						if len(cevs) != 0 {
 							rt.Fatalf("%sthe blocked remote saw an inbound connection from the gated node: the transport dialled", what)
 						}
+					} else if n := len(cli.sw.ConnsToPeer(srv.sw.LocalPeer())); n != 0 {
+						// "closed at accept / right after the security handshake": seen from the remote
+						rt.Fatalf("%sthe remote matches a rule in force but its connection to the gated node is still open 2s after its dial (dial error: %v)", what, derr)
 					}
 				case no:
 					labels["free-connected"] = true
+					class = "free"
 					if len(conns) != 1 || len(evs) != 1 {
 						rt.Fatalf("%sno rule in force matches but the connection was not established (dial error: %v; conns=%d notifications=%d)", what, derr, len(conns), len(evs))
 					}
 				}
+				dir := "inbound"
 				if at.outbound {
-					labels["outbound"] = true
-				} else {
-					labels["inbound"] = true
+					dir = "outbound"
+				}
+				labels[dir] = true
+				labels[cmName] = true
+				labels[fmt.Sprintf("%s/%s/%s/%s", at.tpt(), dir, cmName, class)] = true
+				if cfg.quic && cfg.wt {
+					labels["quic+webtransport-on-one-port"] = true
+				}
+				if !at.outbound && srv.scopes != nil && srv.scopes.Load() > opened0 {
+					labels["inbound:scope-opened-before-the-listener-saw-the-connection"] = true
 				}
 				srv.sw.ClosePeer(rid.ID)
 				cli.close()
@@ -274,13 +417,13 @@ func TestQUICSimnet(t *testing.T) {
 		if relaxedUsed+excludedMasks != ex0 {
 			stats.Excluded(name) // a known-finding exclusion shaped this case
 		}
-		fp := w.fingerprint() + fmt.Sprint(v6, reopen) + strings.Join(hist, ";")
+		fp := w.fingerprint() + fmt.Sprint(v6, reopen, cfg) + strings.Join(hist, ";")
 		for _, a := range attempts {
-			fp += fmt.Sprintf("|%d@%s/%v", a.peer, w.ips[a.ip], a.outbound)
+			fp += fmt.Sprintf("|%d@%s/%v/%s", a.peer, w.ips[a.ip], a.outbound, a.tpt())
 		}
 		stats.Case(name, fp, nontrivial, ls...)
 		if stats.WantSample(name) {
-			stats.Sample(name, map[string]any{"history": hist, "v6": v6, "attempts": fmt.Sprint(attempts)})
+			stats.Sample(name, map[string]any{"history": hist, "v6": v6, "config": fmt.Sprintf("%+v", cfg), "attempts": fmt.Sprint(attempts)})
 		}
 	})
 }
